@@ -259,7 +259,7 @@ SAMENESS_CODES = (108, 110, 124, 132, 136, 142, 148, 188)
 def sameness_checks_e2e(ctx: Ctx) -> None:
     """Every check whose justification is that two operands are the same expression: its idioms (C01 rule table) with ONE occurrence
     of an operand replaced by another operand of the same type.  Such a variant may only be reported if it still is an instance of
-    the idiom under a consistent renaming of the operands (e.g. `y if y < x else x`); otherwise operands that differ were taken for the same."""
+    the idiom under a consistent substitution of operands for its operands (e.g. `y if y < x else x`, `y if y else y`); otherwise operands that differ were taken for the same."""
     import tempfile
     from pathlib import Path
 
@@ -287,7 +287,18 @@ def sameness_checks_e2e(ctx: Ctx) -> None:
             vt = ast.parse(c01.textwrap.dedent(v.lhs))
         except SyntaxError:
             return True
-        for b in by_code[v.code]:
+        # symmetric comparisons may be written either way round: `z == y or x == z` is `y == z or z == x`
+        sym = [n for n in ast.walk(vt) if isinstance(n, ast.Compare) and len(n.ops) == 1 and isinstance(n.ops[0], (ast.Eq, ast.NotEq, ast.Is, ast.IsNot))]
+        shapes = []
+        for mask in range(2 ** min(len(sym), 4)):
+            for k, n in enumerate(sym[:4]):
+                if mask >> k & 1:
+                    n.left, n.comparators[0] = n.comparators[0], n.left
+            shapes.append(ast.parse(ast.unparse(vt)))
+            for k, n in enumerate(sym[:4]):
+                if mask >> k & 1:
+                    n.left, n.comparators[0] = n.comparators[0], n.left
+        for b in [b for b in by_code[v.code] for _ in shapes]:
             try:
                 bt = ast.parse(c01.textwrap.dedent(b.lhs))
             except SyntaxError:
@@ -296,11 +307,14 @@ def sameness_checks_e2e(ctx: Ctx) -> None:
             c01.PLACEHOLDERS.clear()
             c01.PLACEHOLDERS.update(b.params)
             try:
-                env: dict = {}
-                ok = len(bt.body) == len(vt.body) and all(c01._unify(p, t, env, []) for p, t in zip(bt.body, vt.body))
-                # a renaming: distinct operands of the idiom stay distinct
-                names = [ast.dump(x) for x in env.values()]
-                if ok and len(set(names)) == len(names) and all(isinstance(x, ast.Name) for x in env.values()):
+                ok = False
+                for sh in shapes:
+                    env = {}
+                    if len(bt.body) == len(sh.body) and all(c01._unify(p, t, env, []) for p, t in zip(bt.body, sh.body)):
+                        ok = True
+                        break
+                # the positions the idiom needs to be the same ARE the same (two operands of the idiom may coincide: `y if y else y`)
+                if ok and all(isinstance(x, ast.Name) for x in env.values()):
                     return True
             finally:
                 c01.PLACEHOLDERS.clear()
